@@ -133,3 +133,33 @@ Section Step.
     | tm :: tl => write_edges (muB_scratch comp (S k) tl all I) (t_edges tm) (density comp all I k)
     end.
 End Step.
+
+(* ---------- a run: steps threaded through psi AND mu.  The phase factor of step k is exp(-i mu_{k-1} dt_k) with the
+   potential of the previous step (solve_for_psi_squared: phase = exp(-1j * mu * dt)); exp is an oracle [expi].
+   Per step: links (the applied potential may depend on time), disorder, time step and boundary data.
+   One entry per step; None = the update was refused and ends the list (the retry logic that then shrinks dt is
+   Model.Adapt). ---------- *)
+Section Run.
+  Variable O : Ops.
+  Local Notation T := (T O).
+  Local Notation C := (C O).
+  Variable a : nat -> T.
+  Variable n : nat.
+  Variable es : list (edge O).
+  Variable fixed : list nat.
+  Variable solve : (nat -> T) -> (nat -> T).
+  Variable repin : option C.
+  Variable expi : T -> C.                                   (* x |-> exp(-i x) *)
+
+  Record step_in := { si_U : list C; si_eps : nat -> T; si_dt : T; si_muB : nat -> T; si_dAdt : nat -> T }.
+  Fixpoint run_steps (gamma u : T) (psi : nat -> C) (mu : nat -> T) (l : list step_in) : list (option (step_out O)) :=
+    match l with
+    | [] => []
+    | i :: tl =>
+        match step O a n es fixed solve (fun r => expi (o_mul O (mu r) (si_dt i))) repin
+                   (si_U i) psi (si_eps i) gamma u (si_dt i) (si_muB i) (si_dAdt i) with
+        | None => [None]
+        | Some o => Some o :: run_steps gamma u (so_psi O o) (ob_mu O (so_obs O o)) tl
+        end
+    end.
+End Run.
